@@ -13,6 +13,9 @@ structure St where
   live : List Bool := []
   sched : List Bool := []
   sin : Option StreamIn.SIn := none
+  sfresh : Bool := false          -- stream input opened, no request handled yet
+  sro : Bool := false             -- stream input is read-only
+  cfresh : Bool := false          -- connection opened, nothing sent or handled yet
   -- stream-backed connection: id width when open, lazily created reply context, handle tokens in use,
   -- spec: unanswered requests moved to handles, transport reachable
   cw : Option Nat := none
@@ -71,11 +74,24 @@ def parseAct (a : String) : Option Act :=
     | some v => if v < -128 ∨ v > 127 ∨ (a.drop 4).toString.startsWith "+" then none else some (.ret v)
     | none => none
   else if a.startsWith "reply:" then (parseHex (a.drop 6).toString).map .reply
+  else if a.startsWith "replyfail:" then (parseHex (a.drop 10).toString).map .replyFail
+  else if a.startsWith "replyfail2:" then
+    (parseHex (a.drop 11).toString).bind fun m => if m.length < 600 then none else some (.replyFail m)
   else none
 
-def parseActs (s : String) : Option (List StreamIn.Act) :=
+/-- failure injection (`replyfail:` 1st, `replyfail2:` 2nd growth of the write queue refused) is predictable only while
+    the stream never wrote anything: on a fresh stream input, before every reply act, `replyfail2` last -/
+def failActsOk : Bool → List String → Bool
+  | _, [] => true
+  | fresh, a :: as =>
+    if a.startsWith "replyfail2:" then fresh && failActsOk false as
+    else if a.startsWith "replyfail:" then fresh && failActsOk fresh as
+    else if a.startsWith "reply:" ∨ a = "replynull" then failActsOk false as
+    else failActsOk fresh as
+
+def parseActs (s : String) (fresh : Bool := false) : Option (List StreamIn.Act) :=
   let parts := s.splitOn ","
-  if parts.length > 16 ∨ parts.any (· = "") then none else parts.mapM parseAct
+  if parts.length > 16 ∨ parts.any (· = "") ∨ !failActsOk fresh parts then none else parts.mapM parseAct
 
 def fmtFrames (fs : List (List Byte)) : String :=
   if fs.isEmpty then "-" else ",".intercalate (fs.map fun f => s!"frame[{toHex f}]")
@@ -99,6 +115,8 @@ def specReq (idlen : Nat) (data : List Byte) (acts : List Act) : String × List 
       match a with
       | .ret _ => (acc.1 ++ ["ret"], acc.2)
       | .defer => (acc.1 ++ [if ctx then "nodefer" else "noctx"], acc.2)
+      -- an attempt the transport could not take: refused, the request stays open
+      | .replyFail _ => (acc.1 ++ [if ctx then "refused" else "noctx"], acc.2)
       | _ => if !ctx then (acc.1 ++ ["noctx"], acc.2) else (acc.1 ++ [if acc.2 then "refused" else "ok"], true))
       ([], false)).1
     (s!"called=1 ctx={if ctx then 1 else 0} id={rid.getD 0} acts={",".intercalate res}", frame.toList)
@@ -110,16 +128,36 @@ def stepS (st : St) (w : List String) : St × String :=
     | some idlen =>
       if idlen > 1000 then (st, "bad-op") else
       if idlen > 255 then ({ st with sin := none, cw := none, cc := none, clive := [], cheld := [] }, "R refused | C - | I ret=0 | S refused ; -")
-      else ({ st with sin := some ⟨idlen, 0, []⟩, cw := none, cc := none, clive := [], cheld := [] }, "R ok | C - | I ret=0 | S ok ; -")
+      else ({ st with sin := some ⟨idlen, 0, []⟩, sro := false, sfresh := true, cw := none, cc := none, clive := [], cheld := [] }, "R ok | C - | I ret=0 | S ok ; -")
+    | none => (st, "bad-op")
+  | ["s", "open", n, "ro"] =>
+    -- read-only stream: nothing can be answered on it
+    match n.toNat? with
+    | some idlen =>
+      if idlen > 1000 then (st, "bad-op") else
+      if idlen > 255 then ({ st with sin := none, cw := none, cc := none, clive := [], cheld := [] }, "R refused | C - | I ret=0 | S refused ; -")
+      else ({ st with sin := some ⟨idlen, 0, []⟩, sro := true, sfresh := true, cw := none, cc := none, clive := [], cheld := [] }, "R ok | C - | I ret=0 | S ok ; -")
+    | none => (st, "bad-op")
+  | ["s", "probe"] =>
+    match st.sin with
+    | some _ => (st, "R ok fmt=sock,me meta=same,1 sock=same,me input=same,1 unknown=BadType noptr=ok clone=no ref=2 | C - | I ret=0 | S ok fmt=sock,me meta=same,1 sock=same,me input=same,1 unknown=BadType noptr=ok clone=no ref=2 ; -")
     | none => (st, "bad-op")
   | ["s", "req", h, a] =>
-    match st.sin, parseHex h, parseActs a with
+    match st.sin, parseHex h, parseActs a st.sfresh with
     | some s, some data, some acts =>
       if data.length > 1000 then (st, "bad-op") else
+      -- a request on a stream that cannot be written: the handler runs without a reply context (no transport), no frame
+      if st.sro ∧ s.idlen ≠ 0 ∧ data.length ≥ s.idlen ∧ ((data.take s.idlen).headD 0).toNat < 128 then
+        let h := StreamIn.runActs false acts { s := s }
+        let disp : Int := if h.ret < 0 then 131072 else h.ret % 65536
+        let res := ",".intercalate (acts.map fun a => match a with | .ret _ => "ret" | _ => "noctx")
+        ({ st with sfresh := false },
+         s!"R called=1 ctx=0 id=0 acts={",".intercalate h.results} | C {fmtFrames h.frames} | I next=1 disp={disp} | S called=1 ctx=0 id=0 acts={res} ; -")
+      else
       let r := StreamIn.request s data acts
       let disp : Int := if r.ret < 0 then 131072 else r.ret % 65536
       let (sr, sf) := specReq s.idlen data acts
-      ({ st with sin := some r.s },
+      ({ st with sin := some r.s, sfresh := false },
        s!"R called={if r.called then 1 else 0} ctx={if r.ctx then 1 else 0} id={r.evid} acts={if r.called then ",".intercalate r.results else "-"} | C {fmtFrames r.frames} | I next=1 disp={disp} | S {sr} ; {fmtFrames sf}")
     | _, _, _ => (st, "bad-op")
   | ["s", "close"] =>
@@ -133,7 +171,8 @@ def stepS (st : St) (w : List String) : St × String :=
 /-- `hdr.arg = ret` (int8) -/
 def argByte (r : Int) : Byte := UInt8.ofNat ((if r < 0 then r + 256 else r).toNat % 256)
 
-def framesOf (l : List Sent) : List (List Byte) := l.map fun e => e.id ++ e.msg.getD []
+/-- what reaches the peer: the sends the stream took -/
+def framesOf (l : List Sent) : List (List Byte) := (l.filter (·.ok)).map fun e => e.id ++ e.msg.getD []
 
 structure HState where
   c : Ctx
@@ -160,6 +199,10 @@ def conActs : List Act → HState → HState
     | .replyNull =>
       let r := Reply.reply h.c none 0
       conActs as { h with c := r.2, results := h.results ++ [if r.1 < 0 then "refused" else "ok"] }
+    | .replyFail m =>
+      -- the connection's stream cannot take the frame: the transport rejects the send
+      let r := Reply.reply h.c (some m) Err.BadOperation.code
+      conActs as { h with c := r.2, results := h.results ++ [if r.1 < 0 then "refused" else "ok"] }
 
 open StreamIn in
 /-- spec for one request on the connection: R text, frames, id moved to a new handle (if deferred) -/
@@ -178,7 +221,8 @@ def specConReq (idlen : Nat) (nh : Nat) (data : List Byte) (acts : List Act) : S
       | .reply m => if !ctx then (acc.1 ++ ["noctx"], acc.2)
                     else if acc.2.1 = 0 then (acc.1 ++ ["ok"], 1, acc.2.2 ++ [ReplySpec.mark id ++ m]) else (acc.1 ++ ["refused"], acc.2)
       | .replyNull => if !ctx then (acc.1 ++ ["noctx"], acc.2)
-                    else if acc.2.1 = 0 then (acc.1 ++ ["ok"], 1, acc.2.2 ++ [ReplySpec.mark id]) else (acc.1 ++ ["refused"], acc.2))
+                    else if acc.2.1 = 0 then (acc.1 ++ ["ok"], 1, acc.2.2 ++ [ReplySpec.mark id]) else (acc.1 ++ ["refused"], acc.2)
+      | .replyFail _ => (acc.1 ++ [if ctx then "refused" else "noctx"], acc.2))
       (([] : List String), (0 : Nat), ([] : List (List Byte)))
     let frames := if ctx ∧ r.2.1 = 0 then r.2.2 ++ [ReplySpec.mark id ++ [1, argByte retv]] else r.2.2
     (s!"called=1 ctx={if ctx then 1 else 0} id=0 acts={",".intercalate r.1}", frames, if r.2.1 = 2 then some id else none)
@@ -209,7 +253,7 @@ def conAnswer (st : St) (idlen : Nat) (data : List Byte) : St × String :=
     | none => ({ st with cpend := cpend' }, s!"R {r0} | C - | I next=1 disp=131072 | S {r0} ; {sC}")
   | _ => ({ st with cpend := cpend' }, s!"R {r0} | C - | I next=1 disp=131072 | S {r0} ; {sC}")
 
-def stepC (st : St) (w : List String) : St × String :=
+def stepC0 (st : St) (w : List String) : St × String :=
   match w with
   | ["c", "open", n] =>
     match n.toNat? with
@@ -238,7 +282,7 @@ def stepC (st : St) (w : List String) : St × String :=
       else (st, s!"R {r0} | C - | I next=1 disp=0 | S {r0} ; -")
     | _, _ => (st, "bad-op")
   | ["c", "req", h, a] =>
-    match st.cw, parseHex h, parseActs a with
+    match st.cw, parseHex h, parseActs a st.cfresh with
     | some idlen, some data, some acts =>
       if data.length > 1000 then (st, "bad-op") else
       let (sr, sf, sdef) := specConReq idlen st.clive.length data acts
@@ -323,6 +367,16 @@ def stepC (st : St) (w : List String) : St × String :=
       ({ st with cw := none, cc := c', cwait := none, ccid := 0, cpend := [] }, s!"R ok | C {ctext} | I ret=0 | S ok ; {stext}")
     | none => (st, "bad-op")
   | _ => (st, "bad-op")
+
+
+/-- `cfresh`: true from `c open` until the first line that may write to the connection's stream -/
+def stepC (st : St) (w : List String) : St × String :=
+  let (st', ln) := stepC0 st w
+  if ln = "bad-op" then (st', ln) else
+  match w with
+  | ["c", "open", _] => ({ st' with cfresh := true }, ln)
+  | ["c", "await", _] => (st', ln)
+  | _ => ({ st' with cfresh := false }, ln)
 
 /- ---------------------------------------------------------------- requester side (C++ io::stream) -/
 
@@ -545,6 +599,13 @@ def step (st : St) (w : List String) : St × String :=
           ({ st with c := some c', s := { s with held := s.held ++ [s.cur], cur := none }, live := st.live ++ [true] },
            line s!"ok h{k}" "-" "0" (fmtAlts s!"ok h{k}" alts))
         | (none, c') => ({ st with c := some c' }, line "refused" "-" "0" (fmtAlts s!"ok h{k}" alts))
+      | "defer", ["nomem"] =>
+        -- the allocation of the deferred handle fails: refused, the request stays with the context
+        if !c.owner ∨ st.live.length ≥ 32 then (st, "bad-op") else
+        let k := st.live.length
+        let alts : List ReplySpec.Alt :=
+          if s.cur.isSome ∨ !s.attached then [(true, []), (false, [])] else [(false, [])]
+        (st, line "refused" "-" "0" (fmtAlts s!"ok h{k}" alts))
       | "drop", ["ctx"] =>
         if !c.owner then (st, "bad-op") else
         let alts : List ReplySpec.Alt :=
